@@ -7,6 +7,7 @@ mod c02;
 mod c03;
 mod c04;
 mod c06;
+mod c07;
 mod c08;
 mod c09;
 mod c10;
@@ -42,6 +43,7 @@ fn main() {
         "C03" => c03::replay(&cases, &mut rep),
         "C04" => c04::replay(&cases, &mut rep),
         "C06" => c06::replay(&cases, &mut rep),
+        "C07" => c07::replay(&cases, &mut rep),
         "C08" => c08::replay(&cases, &mut rep),
         "C09" => c09::replay(&cases, &mut rep),
         "C10" => c10::replay(&cases, &mut rep),
